@@ -35,6 +35,9 @@ def sql_cases(tier, seed):
                 ops.append("reopen")
             elif r < 0.90:
                 ops.append("reopen2 %d 0" % (rng.random() < 0.3))     # the same database under the always-add policy from now on
+            elif r < 0.915:
+                # the policies switched on the OPEN object (also back and forth, also after lines of this session)
+                ops.append(rng.choice(["setdups 0", "setdups 1", "setdups 0", "setspace 0", "setspace 1"]))
             elif r < 0.93:
                 ops.append(rng.choice(["save", "save", "append"]))     # to the database's own path: nothing may change
             else:
@@ -83,6 +86,20 @@ def sql_cases(tier, seed):
             ops.append("%s %s 0 f" % (rng.choice(["search", "sw"]), enc([ord(c) for c in term])))
             ops.append("%s %s %d r" % (rng.choice(["search", "sw"]), enc([ord(c) for c in term]), len(words) + 2))
             ops.append("%s %s %d %s" % (rng.choice(["search", "sw"]), enc([ord(c) for c in term]), rng.randint(0, len(words)), rng.choice("fr")))
+        ops += ["len", "walk"]
+        cases.append((head, ops))
+    # the duplicates policy switched inside a session, then an earlier line of THAT session entered again
+    for i in range(max(6, n // 20)):
+        d0 = i % 2
+        head = "100 0 %d" % d0
+        words = rng.sample(["a", "b", "c d", "git", "ls"], 3)
+        ops = ["add " + enc([ord(c) for c in w]) for w in words[:2]]
+        ops.append("setdups %d" % (1 - d0))
+        ops += ["add " + enc([ord(c) for c in w]) for w in (words[2], words[0], words[1])]
+        if i % 3 == 0:
+            ops += ["setdups %d" % d0, "add " + enc([ord(c) for c in words[0]]), "add " + enc([ord(c) for c in words[2]]), "setdups %d" % (1 - d0)]
+        if i % 4 == 1:
+            ops += ["reopen", "add " + enc([ord(c) for c in words[0]])]
         ops += ["len", "walk"]
         cases.append((head, ops))
     return cases
@@ -153,6 +170,21 @@ def c20_corr(res, exe, driver, tier, seed, tmp):
                 cur_max = int(t[1])
                 if len(ref) > cur_max:
                     ref = ref[len(ref) - cur_max:]
+            elif t[0] == "setspace":
+                igs = t[1]
+            elif t[0] == "setdups":
+                dup = len(set((s_, tuple(e_)) for s_, e_ in ref)) != len(ref)
+                if out == "x" and not (t[1] == "1" and igd == "0" and dup):
+                    res.oracle_failures.append({"stream": "sqlhist", "case": line, "impl": o,
+                                                "why": "ignore_dups(%s) failed although no session holds a line twice" % t[1]})
+                    break
+                if out == "u" and t[1] == "1" and igd == "0" and dup:
+                    res.oracle_failures.append({"stream": "sqlhist", "case": line, "impl": o,
+                                                "why": "ignore_dups(true) succeeded although a session holds a line twice"})
+                    break
+                if out == "u":
+                    igd = t[1]
+                stats["policy_switches"] = stats.get("policy_switches", 0) + 1
             elif t[0] in ("reopen", "reopen2"):
                 stats["reopens"] += 1
                 session_open = False
